@@ -285,7 +285,8 @@ def run(chk):
                 "'\\ud800'", "'\\udfff'", "'\\U0000d800'", "'\\U1234567'", "'\\8'", "'\\9'", "'\\08'", "'\\1'", "'\\12'",
                 "'\\128'", "'\\778'", "'abc", '"abc', "'abc\"", "'\\", "'\\'", "b'\\400'", "b'\\777'", "b'\\x4'", "b'\\8'",
                 "b'abc", "b'\\", "r'abc", "f'{'", "f'}'", "f'{}'", "f'{1'", "b'\\0'", "b'\\07'", "'\\U'", "'\\u'",
-                "b\"\\512\"", "'\\400' + b'\\400'"]:
+                "b\"\\512\"", "'\\400' + b'\\400'", "'\\800'", "'\\877'", "'\\900'", "'\\977'", "'\\811'", "\"\\800\"",
+                "b'\\800'", "b'\\900'", "f'\\800{1}'", "'a\\800b'", "'\\080'", "'\\008'", "'\\180'", "'\\18'"]:
         add(bad, "CERRANY")
     # every position of every fixed-width escape filled with a character that a lenient number parser would take
     # (a sign, a space, an underscore, a digit of another script, a letter past f)
